@@ -395,6 +395,25 @@ CORPUS = [
 ]
 
 
+def exclusive_objects(o):
+    """The property's own clause on whatever the implementation hands back: every Resources object an operation returned was constructed, so none
+    may carry a mutually exclusive combination (cpus with nodes; cpus_per_node without nodes) - whichever operation built it (constructor,
+    from_dict, update, with_defaults, combine_max, nesting, pipeline defaults).  Observations are the `obs` dictionaries, at any depth."""
+    out, todo = [], [o]
+    while todo:
+        x = todo.pop()
+        if isinstance(x, dict):
+            if {"cpus", "nodes", "cpus_per_node"} <= set(x):
+                if x["nodes"] and x["cpus"]:
+                    out.append(f"an operation returned a Resources object with nodes={x['nodes']} and cpus={x['cpus']} together (mutually exclusive)")
+                if x["cpus_per_node"] and not x["nodes"]:
+                    out.append(f"an operation returned a Resources object with cpus_per_node={x['cpus_per_node']} and no nodes")
+            todo += list(x.values())
+        elif isinstance(x, (list, tuple)):
+            todo += list(x)
+    return out[:2]
+
+
 def check_cases(ctx, cases):
     reqs, impls = [], []
     for case in cases:
@@ -414,6 +433,7 @@ def check_cases(ctx, cases):
             o, bad = run_impl(case)
         except Exception as e:  # noqa: BLE001  the implementation raised where the harness expected it not to
             o, bad = {"err": exc_enum(e)}, [f"unexpected {type(e).__name__}: {e}"]
+        bad = list(bad) + exclusive_objects(o)
         reqs.append({"m": case["m"], "a": case["a"]})
         impls.append((case, o, bad))
     outs = ctx.lean(reqs)
